@@ -20,8 +20,8 @@ Qed.
 
 Lemma wkey_eqb_eq a b : wkey_eqb a b = true <-> a = b.
 Proof.
-  destruct a as [s1 a1], b as [s2 a2]. unfold wkey_eqb. cbn [fst snd].
-  rewrite andb_true_iff, N.eqb_eq, Bool.eqb_true_iff. split; [intros [-> ->] | intros H; inversion H]; tauto.
+  destruct a as [[s1 a1] n1], b as [[s2 a2] n2]. unfold wkey_eqb. cbn [fst snd].
+  rewrite !andb_true_iff, !N.eqb_eq, Bool.eqb_true_iff. split; [intros [[-> ->] ->] | intros H; inversion H]; tauto.
 Qed.
 
 Lemma pkey_eqb_eq a b : pkey_eqb a b = true <-> a = b.
@@ -272,11 +272,20 @@ Proof.
 Qed.
 
 (* the second amount given for a reward account replaces the first *)
-Lemma withdrawal_replaced s a c1 c2 :
-  map plain_wd (eff_wdrl [mk_iwd s a c1; mk_iwd s a c2]) = [(s, c2)].
+Lemma withdrawal_replaced s a n c1 c2 :
+  map plain_wd (eff_wdrl [mk_iwd s a n c1; mk_iwd s a n c2]) = [(s, c2)].
 Proof.
   unfold eff_wdrl, map_insert_all. cbn [fold_left]. unfold map_insert. cbn [filter app].
-  unfold wd_key, wkey_eqb. cbn [fst snd w_script w_acct]. rewrite Bool.eqb_reflx, N.eqb_refl. reflexivity.
+  unfold wd_key, wkey_eqb. cbn [fst snd w_script w_acct w_net]. rewrite Bool.eqb_reflx, !N.eqb_refl. reflexivity.
+Qed.
+
+(* the same credential on two networks is two reward accounts: both amounts are kept *)
+Lemma different_network_kept s a n1 n2 c1 c2 : n1 <> n2 ->
+  map plain_wd (eff_wdrl [mk_iwd s a n1 c1; mk_iwd s a n2 c2]) = [(s, c1); (s, c2)].
+Proof.
+  intros N. unfold eff_wdrl, map_insert_all. cbn [fold_left]. unfold map_insert. cbn [filter app].
+  unfold wd_key, wkey_eqb. cbn [fst snd w_script w_acct w_net].
+  rewrite Bool.eqb_reflx, N.eqb_refl. destruct (N.eqb_spec n2 n1); [congruence |]. reflexivity.
 Qed.
 
 (* ---------- positional identities: the first-generation case lines mean what they meant ---------- *)
@@ -325,7 +334,7 @@ Proof.
       * intros j [c s]. apply cert_key_positional_index.
       * intros a b E. rewrite E. reflexivity.
   - destruct ws as [l |]; cbn [option_map]; [| reflexivity]. f_equal.
-    destruct (eff_wdrl_spec (number_from (fun i sw => mk_iwd (fst sw) i (snd sw)) 0 l)) as [_ [_ [_ Id]]].
+    destruct (eff_wdrl_spec (number_from (fun i sw => mk_iwd (fst sw) i (N.modulo i 2) (snd sw)) 0 l)) as [_ [_ [_ Id]]].
     unfold eff_wdrl. rewrite Id.
     + apply number_from_map. intros j [s w]. reflexivity.
     + apply (number_from_nodup _ wd_key w_acct).
